@@ -290,6 +290,22 @@ def run_check(pid, tier, replay=None):
                 counted += int(doc.get("counted", 0))  # enumerated parts are identical in every build variant
             hash_files.append(r["env"]["VERIF_HASHES"])
         rc = r["rc"]
+        # Go race detector reports (C09): a report is a violation whatever the exit status; the replay file
+        # holds the report (stacks of both accesses) and the script that was in flight.
+        logtxt = tail(logpath, 200000)
+        if "WARNING: DATA RACE" in logtxt:
+            dst = os.path.join(rdir, "%s-race-%s.json" % (pid, r["tag"]))
+            i = logtxt.index("WARNING: DATA RACE")
+            rec = {"property": pid, "oracle": "no execution contains a data race (Go race detector)", "race_report": logtxt[i:i + 12000]}
+            j = r["env"]["VERIF_JOURNAL"]
+            if os.path.exists(j):
+                try:
+                    rec["script_in_flight"] = json.load(open(j))
+                except Exception:
+                    pass
+            json.dump(rec, open(dst, "w"), indent=1)
+            violations.append((dst, "data race reported by the race detector"))
+            continue
         if rc == "timeout":
             inconclusive.append("shard %s exceeded the driver time limit (%ds)" % (r["tag"], tcfg["timeout"]))
         elif rc != 0:
@@ -434,7 +450,7 @@ NOT_YET = {}
 
 # Properties whose check has been reviewed, is silent on the unchanged tree at several seeds and has
 # caught seeded mutations; only these are claimed in MANIFEST.json.
-REGISTERED = ["C01", "C02", "C03", "C05", "C06", "C07", "C10", "C11", "C12", "C14", "C15", "C16", "C17", "C18", "C19", "C20"]
+REGISTERED = ["C01", "C02", "C03", "C05", "C06", "C07", "C09", "C10", "C11", "C12", "C14", "C15", "C16", "C17", "C18", "C19", "C20"]
 
 
 def main(argv):
